@@ -31,6 +31,13 @@ CHECKS = {
         'C05_error_below_lsb) for every exponent; every representable value is a fixed point of all ten mode pairs with no flag (C05_idempotent); quantization under saturate is monotone '
         '(C05_monotone). Tie: the relations are evaluated with exact rationals directly on the implementation output over the C01 input stream, plus idempotence and sorted-input sweeps.',
    design='7/C05', technique='Coq proof (lia/nia over div/mod by 2^k) + relation checking on implementation output'),
+
+ 'C10': dict(
+   text='Proof: C10_routes - for every pair of core formats, all 10 destination mode pairs, arrays of any length and every route class (ndarray routes resize / like() / equal; Fxp-input routes '
+        'constructor / like= / set_val / call / indexed assignment with the source vdtype), the model of utils.scale_raw + set_val(raw=True) stores the exact source value quantized into the destination with the flags of that '
+        'quantization; C10_chain lifts it to conversion sequences of any length by induction; C10_preserves_representable. One corner (float source vdtype, positive shift, rescaled code >= 2^53, i.e. an overflowing value) '
+        'is outside the theorem and rests on the correspondence run. Tie: 9 concrete routes x format pairs x modes x shapes x source construction routes x chains, against Spec and the model.',
+   design='7/C10', technique='Coq proof of the conversion model = quantizer (+ chain induction) + differential correspondence'),
 }
 NA_REASON = 'check not built yet (work in progress; see DESIGN.md section 10 order of work)'
 def main():
